@@ -5,7 +5,8 @@
    parser) and Spec/Utf8Spec.v (well-formed UTF-8 = the encoding of some scalar sequence:
    no overlong form, no encoded surrogate, nothing above U+10FFFF). *)
 From JsonSyntax Require Import Base.Prelude Base.Value Base.Unicode Base.Source Model.Parser Model.EntryPoints
-  Spec.Grammar Spec.Utf8Spec Proofs.ParserSpec Proofs.ParserCorollaries Proofs.Utf8Proofs.
+  Spec.Grammar Spec.Utf8Spec Proofs.ParserSpec Proofs.ParserCorollaries Proofs.Utf8Proofs
+  Base.ConstSyntax Generated.Consts Proofs.ConstsTie.
 
 (* text input: accepted iff Strict, for EVERY character sequence *)
 Theorem C01_str : forall cs, Forall (fun c => c <= 0x10FFFF) cs ->
@@ -58,6 +59,30 @@ Example C01_accepts_somewhere :
   (exists r, parse_str (s2l " [1, {""a"": null}] ") = Ok r) /\ parse_slice [0x22; 0xC0; 0xAF; 0x22] = Err (EInvalidUtf8 1).
 Proof. vm_compute. split; [eexists; reflexivity|reflexivity]. Qed.
 
+
+(* ---- static tie of the constant tables (DESIGN.md section 4, "Translator tie for constant tables"):
+   `src_..` (Generated/Consts.v) is what lib/const_translate.py evaluates the named function / constant of
+   the Rust source to -- regenerated from the tree under check at the start of every `bin/check` of this
+   property --, the right-hand side is the same data computed from the model's own function
+   (Base/ConstSyntax.v: set_of = the maximal runs of domain points where a predicate holds) ---- *)
+Theorem C01_whitespace_from_source :
+  src_is_whitespace = set_of Parser.is_ws char_domain /\ (forall c, 256 <= c -> Parser.is_ws c = false).
+Proof. exact ConstsTie.whitespace_from_source. Qed.
+Theorem C01_follows_from_source :
+  src_follows = map (fun ctx => (ct_ctx_name ctx, set_of (Parser.follows ctx) char_domain)) ct_contexts
+  /\ (forall ctx c, 256 <= c -> Parser.follows ctx c = false).
+Proof. exact ConstsTie.follows_from_source. Qed.
+Theorem C01_control_from_source :
+  src_is_control = set_of Parser.is_control char_domain /\ (forall c, 256 <= c -> Parser.is_control c = false).
+Proof. exact ConstsTie.control_from_source. Qed.
+Theorem C01_surrogates_from_source :
+  src_surrogate_tests = [set_of is_low unit_domain; set_of is_high unit_domain; set_of is_high unit_domain]
+  /\ (forall u, u < 0xD700 \/ 0xE100 <= u -> is_high u = false /\ is_low u = false).
+Proof. exact ConstsTie.surrogates_from_source. Qed.
+Theorem C01_surrogate_pair_from_source :
+  src_surrogate_combine = map (fun p => (fst p, snd p, ct_pair_char (fst p) (snd p))) pair_domain.
+Proof. exact ConstsTie.surrogate_pair_from_source. Qed.
+
 Print Assumptions C01_str.
 Print Assumptions C01_slice.
 Print Assumptions C01_utf8_wellformed.
@@ -68,3 +93,8 @@ Print Assumptions C01_bom_rejected.
 Print Assumptions C01_whitespace_exact.
 Print Assumptions C01_slice_rejects_bom.
 Print Assumptions C01_accepts_somewhere.
+Print Assumptions C01_whitespace_from_source.
+Print Assumptions C01_follows_from_source.
+Print Assumptions C01_control_from_source.
+Print Assumptions C01_surrogates_from_source.
+Print Assumptions C01_surrogate_pair_from_source.
